@@ -71,8 +71,10 @@ def run(ck):
     ck.sample({"vals": traces[-1]["vals"], "k": traces[-1]["k"], "first_events": traces[-1]["res"][:1]})
     fails = ck.judge("JPart", traces, {"C01"}, what="C01 partition validity", chunk=2500)
     ck.classify(fails, ctx_of)
+    from .. import magnitude
+    magnitude.run(ck, {"C01"}, 60 if q else 1500, objs=False)
     ck.assumptions += ["names<->ids bijection and value matching for plain lists are done by the harness (DESIGN 4.3)",
-                       "TLC / SANY / CommunityModules", "totals < 2^31 (TLC integers); magnitudes up to 2^53 only in the magnitude tier"]
+                       "TLC / SANY / CommunityModules", "totals < 2^31 in the exhaustive and random tiers; the magnitude tier (values up to 2^50, totals < 2^53) uses two-limb arithmetic in TLA+ (BigNat.tla)"]
 
 
 if __name__ == "__main__":
